@@ -50,6 +50,10 @@ theorem byp_step {life : Nat} {g g' : G} {t : Tid}
   by_cases ht : t' = t
   · subst ht
     cases hs <;> simp_all
+    all_goals
+      rename_i hpc
+      obtain ⟨k, hk'⟩ := hk t' (by simp [hpc]) (by simp [hpc]) (by simp [hpc])
+      simp_all
   · have : g'.threads t' = g.threads t' := by cases hs <;> simp [setThread_threads_ne _ _ ht]
     rw [this] at h1 h2 h3 ⊢
     exact hb t' h1 h2 h3
@@ -140,10 +144,11 @@ theorem at_most_one_success_witness_K1 :
 
 /-- non-vacuity of the partial theorem: the same schedule without the fault, after the lifetime has
 passed thread 1 executes again, and the hypotheses of `AtMostOnce` hold for (0, 1) -/
-example : let g := (sys 5).run (init (fun _ => ⟨some 0, false, false⟩) 100)
-      (List.replicate 12 (.thr 0) ++ [.tick 5] ++ List.replicate 7 (.thr 1))
-    Known.K1 g 0 = false ∧ execRegion (g.threads 1).pc = true ∧ (g.threads 0).ran = true ∧
-    (g.threads 0).doneAt + 5 ≤ g.now := by decide
+def exA : G := (sys 5).run (init (fun _ => ⟨some 0, false, false⟩) 100)
+  (List.replicate 12 (Act.thr 0) ++ [Act.tick 5] ++ List.replicate 7 (Act.thr 1))
+
+example : Known.K1 exA 0 = false ∧ execRegion (exA.threads 1).pc = true ∧ (exA.threads 0).ran = true ∧
+    (exA.threads 0).doneAt + 5 ≤ exA.now := by decide
 
 /-- **successes_a_lifetime_apart.** Under every schedule: two different requests of the same key
 whose handlers both completed successfully, and neither of whose responses was lost by a failing
@@ -202,9 +207,11 @@ theorem successes_a_lifetime_apart (life : Nat) (reqs : Tid → Req) (t0 : Nat) 
           intro t'
           by_cases ht : t' = t
           · subst ht
-            cases hst <;> simp_all [Known.K1]
+            have he := hf.exec.early t'
+            have hs := hf.exec.atSet t'
+            cases hst <;> simp_all [Known.K1, early]
           · have : g'.threads t' = g.threads t' := by cases hst <;> simp [setThread_threads_ne _ _ ht]
-            simp [Known.K1, this]
+            exact ⟨by rw [this], by rw [this], fun h _ _ => by rwa [this] at h, by simp [Known.K1, this]⟩
         intro t1 t2 k hne k1 k2 r1 f1 r2 f2 kk1 kk2
         obtain ⟨a1, b1, c1, d1⟩ := hsame t1
         obtain ⟨a2, b2, c2, d2⟩ := hsame t2
@@ -229,9 +236,10 @@ theorem same_answer (life : Nat) (reqs : Tid → Req) (t0 : Nat) {g : G}
   obtain ⟨d, e, _⟩ := hf.exec.stored r c
   exact ⟨a, b, c, d, e, hf.exec.noRun t (by simp [ho, noRunOut])⟩
 
-example : let g := (sys 5).run (init (fun _ => ⟨some 0, false, false⟩) 100)
-      (List.replicate 12 (.thr 0) ++ List.replicate 2 (.thr 1))
-    (g.threads 1).out = .replay 0 ∧ (g.threads 1).pc = .done := by decide
+def exB : G := (sys 5).run (init (fun _ => ⟨some 0, false, false⟩) 100)
+  (List.replicate 12 (Act.thr 0) ++ List.replicate 2 (Act.thr 1))
+
+example : (exB.threads 1).out = .replay 0 ∧ (exB.threads 1).pc = .done := by decide
 
 /-! ### lookup / lock failures -/
 
@@ -253,10 +261,34 @@ theorem fault_gives_error (g g' : G) (t : Tid) (h : stepFault g t = some g') :
     (g'.threads t).out = .errSet := by
   cases hpc : (g.threads t).pc <;> simp [stepFault, hpc] at h <;> subst h <;> simp
 
-example : let g := (sys 5).run (init (fun _ => ⟨some 0, false, false⟩) 100) ([.thr 0, .thr 0, .fault 0])
-    (g.threads 0).out = .errLock ∧ (g.threads 0).pc = .done ∧ (g.threads 0).ran = false := by decide
+def exC : G := (sys 5).run (init (fun _ => ⟨some 0, false, false⟩) 100) [Act.thr 0, Act.thr 0, Act.fault 0]
+
+example : (exC.threads 0).out = .errLock ∧ (exC.threads 0).pc = .done ∧ (exC.threads 0).ran = false := by decide
 
 /-! ### other requests are unaffected -/
+
+/-- the only instruction that can block is `lock.mu.Lock()` -/
+theorem stepThr_none_pc {life : Nat} {g : G} {t : Tid}
+    (hk : ∀ t, (g.threads t).pc ≠ .idle → (g.threads t).pc ≠ .atHandlerB → (g.threads t).pc ≠ .done →
+      ∃ k, (g.threads t).req.key = some k)
+    (hnone : stepThr life g t = none) (hnd : (g.threads t).pc ≠ .done) : (g.threads t).pc = .lockAcq := by
+  have hkey := hk t
+  cases hpc : (g.threads t).pc
+  case lockAcq => rfl
+  case done => exact absurd hpc hnd
+  case idle =>
+    simp only [stepThr, hpc] at hnone
+    cases hk' : (g.threads t).req.key <;> simp [hk'] at hnone
+    split at hnone <;> simp at hnone
+  all_goals
+    simp only [stepThr, hpc] at hnone
+    first
+      | (simp at hnone; done)
+      | (obtain ⟨k, hk'⟩ := hkey (by simp [hpc]) (by simp [hpc]) (by simp [hpc])
+         simp only [hk'] at hnone
+         first
+           | (simp at hnone; done)
+           | (split at hnone <;> simp at hnone))
 
 /-- **others_unaffected.** (1) A request without a key / with a safe method always has an enabled step
 until it is done, that step touches neither storage nor lock table, and it ends having run the
@@ -286,8 +318,12 @@ theorem others_unaffected (life : Nat) (reqs : Tid → Req) (t0 : Nat) {g : G}
         · obtain ⟨k, hk'⟩ := hf.keyed t h1 h2 hnd
           rw [hk] at hk'; cases hk'
     rcases hpc with hpc | hpc
-    · exact ⟨_, by simp [stepThr, hpc, hk, hiv], rfl, rfl, rfl⟩
-    · exact ⟨_, by simp [stepThr, hpc], rfl, rfl, rfl⟩
+    · have : stepThr life g t = some (g.setThread t { g.threads t with pc := .atHandlerB }) := by
+        simp [stepThr, hpc, hk, hiv]
+      exact ⟨_, this, rfl, rfl, rfl⟩
+    · have : stepThr life g t = some (g.setThread t { g.threads t with pc := .done, ran := true, out := if (g.threads t).req.fails then .errHandler else .own }) := by
+        simp [stepThr, hpc]
+      exact ⟨_, this, rfl, rfl, rfl⟩
   · exact hf.byp t hk hiv hd
   · constructor
     · intro k' hkk
@@ -295,12 +331,7 @@ theorem others_unaffected (life : Nat) (reqs : Tid → Req) (t0 : Nat) {g : G}
     · intro t' ht
       cases hst <;> simp [setThread_threads_ne _ _ ht]
   · -- the only blocking instruction is lock.mu.Lock()
-    have hpc : (g.threads t).pc = .lockAcq := by
-      cases hpc : (g.threads t).pc <;> simp [stepThr, hpc] at hnone <;> try (exact absurd hpc hnd)
-      all_goals
-        obtain ⟨k, hk⟩ := hf.keyed t (by simp [hpc]) (by simp [hpc]) (by simp [hpc])
-        simp [hk] at hnone
-        try (split at hnone <;> simp at hnone)
+    have hpc : (g.threads t).pc = .lockAcq := stepThr_none_pc hf.keyed hnone hnd
     refine ⟨hpc, ?_⟩
     simp only [stepThr, hpc] at hnone
     cases hh : (g.locks (g.threads t).lk).holder with
